@@ -63,7 +63,7 @@ class SubtreesTrie(Generic[T]):
         return [
             (
                 value := self.trie[self.root_path + suffix],
-                (value[0][len(self.root_path) - 1 :], value[1]),
+                (value[0][max(len(self.root_path) - 1, 0) :], value[1]),
             )[-1]
             for suffix in self.trie.suffixes(self.root_path)
         ]
@@ -74,7 +74,7 @@ class SubtreesTrie(Generic[T]):
                 trie_key_to_path(chr(1) + suffix),
                 (
                     value := self.trie[self.root_path + suffix],
-                    (value[0][len(self.root_path) - 1 :], value[1]),
+                    (value[0][max(len(self.root_path) - 1, 0) :], value[1]),
                 )[-1],
             )
             for suffix in self.trie.suffixes(self.root_path)
